@@ -157,6 +157,25 @@ def step (line : String) : String :=
         | none, _ => "bad-op"
         | _, none => "bad-frame: body is not an encoding of the Spec layout"
       | _, _, _, _ => "bad-args"
+    | ["c17s", t, sa, ha, ks, hn] =>
+      -- the broker goes silent after k bytes (no FIN); the Conn's deadline expires: for the model a stream that ends —
+      -- same prediction as a cut; the monitor also refuses `late` (came back long after the deadline) and `hang`
+      match ofHex t, parseInst sa ha, ks.toNat?, ofHex hn with
+      | some topic, some a, some k, some nb =>
+        match modelConn topic a k nb, monitorConn a true impl with
+        | some m, some h => s!"model={m} holds={if h then 1 else 0}"
+        | none, _ => "bad-op"
+        | _, none => "bad-frame: body is not an encoding of the Spec layout"
+      | _, _, _, _ => "bad-args"
+    | ["c17rawt", hr, ks] =>
+      -- Transport path (saslauthenticate RawExchange): the same un-framed answer, model `rawToken`
+      match ofHex hr, ks.toNat? with
+      | some resp, some k =>
+        let (ra, _) := rawToken (resp.take k)
+        let m := if showOutcome ra == "ok" then s!"ok {resp.length - 4}" else "err"
+        let h := if k < resp.length then impl == "err" else impl == s!"ok {resp.length - 4}"
+        s!"model={m} holds={if h then 1 else 0}"
+      | _, _ => "bad-args"
     | ["c17raw", hr, ks, hn] =>
       match ofHex hr, ks.toNat?, ofHex hn with
       | some resp, some k, some nb =>
